@@ -13,7 +13,7 @@ git apply $O/patch.diff || { echo '{"ok":false,"why":"patch does not apply"}' > 
 c=$(run); cf=$(echo "$c" | grep -cE "FAILED|^error")
 reset
 git apply $O/patch.diff; git apply $O/demo.diff || { echo '{"ok":false,"why":"demo does not apply on patch"}' > $O/validation.json; reset; exit 1; }
-b=$(run); bf=$(echo "$b" | grep -cE "^test .* FAILED"); be=$(echo "$b" | grep -cE "^error")
+b=$(run); bf=$(echo "$b" | grep -cE "^test .* FAILED"); be=$(echo "$b" | grep -cE "^error(\[E[0-9]+\]|: could not compile)")
 reset
 git apply $O/demo.diff || { echo '{"ok":false,"why":"demo does not apply on clean tree"}' > $O/validation.json; reset; exit 1; }
 a=$(run); af=$(echo "$a" | grep -cE "FAILED|^error")
